@@ -1,1 +1,235 @@
-import EoNVerif.Basic
+import EoNVerif.Proofs.ODE
+/-!
+C06 / C08 — target statements about the right-hand-side models of `EoN.analytic` (Model/ODE.lean):
+conservation and sign structure (C06), limiting cases tau = 0 and gamma = 0, final-size fixed points and the discrete
+EBCM recurrence (C08).  All statements are algebraic identities / inequalities over ℚ.
+-/
+namespace ODE
+
+/-! ## C06: conservation -/
+theorem sisHomMF_conserve (nN tau gamma S I : Rat) :
+    (sisHomMF nN tau gamma S I).1 + (sisHomMF nN tau gamma S I).2 = 0 := by
+  simp only [sisHomMF]; ring
+
+theorem sisHetMF_conserve (K : Nat) (tau gamma : Rat) (S I : Nat → Rat) (k : Nat) :
+    (sisHetMF K tau gamma S I).1 k + (sisHetMF K tau gamma S I).2 k = 0 := by
+  simp only [sisHetMF]; ring
+
+/-- SIS super-compact pairwise: the number of (ordered) pairs SS + 2 SI + II is conserved -/
+theorem sisSuperCompactPW_pairs (tau gamma N k1 k2 k3 I SS SI II : Rat) :
+    let r := sisSuperCompactPW tau gamma N k1 k2 k3 I SS SI II
+    r.2.1 + 2 * r.2.2.1 + r.2.2.2 = 0 := by
+  simp only [sisSuperCompactPW]; ring
+
+/-- every explicit one-step / multistep / Runge–Kutta update is an affine combination (weights summing to 1) of
+earlier states plus a linear combination of right-hand-side values; such an update preserves every linear quantity
+`c·x` that the right-hand side annihilates -/
+theorem linear_invariant_of_step (n : Nat) (c : Nat → Rat) (C : Rat)
+    (xs : List (Nat → Rat)) (as : List Rat) (fs : List (Nat → Rat)) (bs : List Rat)
+    (hlen : xs.length = as.length) (hlen' : fs.length = bs.length)
+    (ha : sumRat as = 1)
+    (hx : ∀ x ∈ xs, sumTo n (fun i => c i * x i) = C)
+    (hf : ∀ f ∈ fs, sumTo n (fun i => c i * f i) = 0) :
+    sumTo n (fun i => c i *
+      (sumRat (List.zipWith (fun a (x : Nat → Rat) => a * x i) as xs) +
+       sumRat (List.zipWith (fun b (f : Nat → Rat) => b * f i) bs fs))) = C := by
+  have h1 := sumTo_zipWith n c as xs
+  have h2 := sumTo_zipWith n c bs fs
+  rw [sumRat_zipWith_const (fun x => sumTo n (fun i => c i * x i)) C as xs hlen hx, ha] at h1
+  rw [sumRat_zipWith_zero (fun f => sumTo n (fun i => c i * f i)) bs fs hf] at h2
+  have h3 : ∀ i, i < n → c i *
+      (sumRat (List.zipWith (fun a (x : Nat → Rat) => a * x i) as xs) +
+       sumRat (List.zipWith (fun b (f : Nat → Rat) => b * f i) bs fs))
+      = c i * sumRat (List.zipWith (fun a (x : Nat → Rat) => a * x i) as xs) +
+        c i * sumRat (List.zipWith (fun b (f : Nat → Rat) => b * f i) bs fs) := fun i _ => by ring
+  rw [sumTo_congr n _ _ h3, sumTo_add, h1, h2]; ring
+
+/-! ## C06: sign structure of the SIR models on the feasible set -/
+theorem sirHomMF_signs (nN tau gamma S I : Rat) (h1 : 0 ≤ nN) (h2 : 0 ≤ tau) (h3 : 0 ≤ gamma) (hS : 0 ≤ S) (hI : 0 ≤ I) :
+    let r := sirHomMF nN tau gamma S I
+    r.1 ≤ 0 ∧ 0 ≤ -(r.1 + r.2) ∧ -(r.1 + r.2) = gamma * I := by
+  simp only [sirHomMF]
+  have e : -(-tau * nN * S * I + (tau * nN * S * I - gamma * I)) = gamma * I := by ring
+  refine ⟨?_, ?_, e⟩
+  · have : 0 ≤ tau * nN * S * I := by positivity
+    linarith
+  · rw [e]; positivity
+
+theorem sirHomPW_signs (n tau gamma S I SI SS : Rat) (h2 : 0 ≤ tau) (h3 : 0 ≤ gamma) (hI : 0 ≤ I) (hSI : 0 ≤ SI) :
+    let r := sirHomPW n tau gamma S I SI SS
+    r.1 ≤ 0 ∧ -(r.1 + r.2.1) = gamma * I ∧ 0 ≤ gamma * I := by
+  simp only [sirHomPW]
+  refine ⟨?_, by ring, by positivity⟩
+  have : 0 ≤ tau * SI := by positivity
+  linarith
+
+theorem sirCompactPW_signs (K : Nat) (tau gamma N : Rat) (S : Nat → Rat) (SS SI R : Rat)
+    (h2 : 0 ≤ tau) (hS : ∀ k, 0 ≤ S k) (hSI : 0 ≤ SI) (hSX : 0 < sumTo K (fun k => kf k * S k)) :
+    let r := sirCompactPW K tau gamma N S SS SI R
+    (∀ k, r.1 k ≤ 0) ∧ r.2.2.2 = gamma * (N - sumTo K S - R) := by
+  simp only [sirCompactPW]
+  refine ⟨fun k => ?_, trivial⟩
+  have hk := kf_nonneg k
+  have hSk := hS k
+  have : 0 ≤ tau * kf k * S k * SI / sumTo K (fun k => kf k * S k) := by positivity
+  have e : -tau * kf k * S k * SI / sumTo K (fun k => kf k * S k)
+      = -(tau * kf k * S k * SI / sumTo K (fun k => kf k * S k)) := by ring
+  rw [e]; linarith
+
+theorem sirHetMF_signs (K : Nat) (tau gamma : Rat) (S0 Nk : Nat → Rat) (theta : Rat) (R : Nat → Rat)
+    (h2 : 0 ≤ tau) (h3 : 0 ≤ gamma) (hth : 0 ≤ theta)
+    (hI : ∀ k, 0 ≤ Nk k - S0 k * theta ^ k - R k) (hN : 0 < sumTo K (fun k => kf k * Nk k)) :
+    let r := sirHetMF K tau gamma S0 Nk theta R
+    r.1 ≤ 0 ∧ ∀ k, 0 ≤ r.2 k := by
+  simp only [sirHetMF]
+  refine ⟨?_, fun k => mul_nonneg h3 (hI k)⟩
+  have hnum : 0 ≤ sumTo K (fun k => kf k * (Nk k - S0 k * theta ^ k - R k)) :=
+    sumTo_nonneg _ _ (fun k _ => mul_nonneg (kf_nonneg k) (hI k))
+  have : 0 ≤ tau * (sumTo K (fun k => kf k * (Nk k - S0 k * theta ^ k - R k)) /
+      sumTo K (fun k => kf k * Nk k)) * theta := by positivity
+  linarith
+
+theorem sirIndividual_signs (nbrs : Nat → List Nat) (tr : Nat → Nat → Rat) (rr : Nat → Rat) (X Y : Nat → Rat)
+    (htr : ∀ i j, 0 ≤ tr i j) (hrr : ∀ i, 0 ≤ rr i) (hX : ∀ i, 0 ≤ X i) (hY : ∀ i, 0 ≤ Y i) (i : Nat) :
+    let r := sirIndividual nbrs tr rr X Y
+    r.1 i ≤ 0 ∧ -(r.1 i + r.2 i) = rr i * Y i ∧ 0 ≤ rr i * Y i := by
+  simp only [sirIndividual]
+  refine ⟨?_, by ring, mul_nonneg (hrr i) (hY i)⟩
+  have hs : 0 ≤ sumRat ((nbrs i).map fun j => tr i j * Y j) :=
+    sumRat_map_nonneg _ _ (fun j _ => mul_nonneg (htr i j) (hY j))
+  have := mul_nonneg (hX i) hs
+  linarith
+
+/-! ## C08: tau = 0 — nothing is transmitted: S constant, I decays at rate gamma -/
+theorem tau0_sirHomMF (nN gamma S I : Rat) : sirHomMF nN 0 gamma S I = (0, -gamma * I) := by
+  simp [sirHomMF]
+theorem tau0_sisHomMF (nN gamma S I : Rat) : sisHomMF nN 0 gamma S I = (gamma * I, -gamma * I) := by
+  simp [sisHomMF]
+theorem tau0_sirHomPW (n gamma S I SI SS : Rat) :
+    (sirHomPW n 0 gamma S I SI SS).1 = 0 ∧ (sirHomPW n 0 gamma S I SI SS).2.1 = -gamma * I := by
+  simp [sirHomPW]
+theorem tau0_sisHomPW (N n gamma S SI SS : Rat) : (sisHomPW N n 0 gamma S SI SS).1 = gamma * (N - S) := by
+  simp [sisHomPW]
+theorem tau0_sisHetMF (K : Nat) (gamma : Rat) (S I : Nat → Rat) (k : Nat) :
+    (sisHetMF K 0 gamma S I).1 k = gamma * I k ∧ (sisHetMF K 0 gamma S I).2 k = -gamma * I k := by
+  simp [sisHetMF]
+theorem tau0_sirHetMF (K : Nat) (gamma : Rat) (S0 Nk : Nat → Rat) (theta : Rat) (R : Nat → Rat) :
+    (sirHetMF K 0 gamma S0 Nk theta R).1 = 0 := by
+  simp [sirHetMF]
+theorem tau0_sirCompactPW (K : Nat) (gamma N : Rat) (S : Nat → Rat) (SS SI R : Rat) (k : Nat) :
+    (sirCompactPW K 0 gamma N S SS SI R).1 k = 0 ∧ (sirCompactPW K 0 gamma N S SS SI R).2.1 = 0 := by
+  simp [sirCompactPW]
+theorem tau0_sisCompactPW (K : Nat) (gamma twoM : Rat) (Nk S : Nat → Rat) (SI SS : Rat) (k : Nat) :
+    (sisCompactPW K 0 gamma twoM Nk S SI SS).1 k = gamma * (Nk k - S k) := by
+  simp [sisCompactPW]
+theorem tau0_sirSuperCompactPW (K : Nat) (c : Nat → Rat) (gamma N theta SS SI R : Rat) :
+    (sirSuperCompactPW K c 0 gamma N theta SS SI R).1 = 0 := by
+  simp [sirSuperCompactPW]
+theorem tau0_ebcm (K : Nat) (c : Nat → Rat) (N gamma phiS0 phiR0 R : Rat) :
+    (ebcm K c N 0 gamma phiS0 phiR0 1 R).1 = 0 := by
+  simp [ebcm]
+theorem tau0_sirIndividual (nbrs : Nat → List Nat) (rr : Nat → Rat) (X Y : Nat → Rat) (i : Nat) :
+    (sirIndividual nbrs (fun _ _ => 0) rr X Y).1 i = 0 ∧ (sirIndividual nbrs (fun _ _ => 0) rr X Y).2 i = -rr i * Y i := by
+  have h : sumRat ((nbrs i).map fun j => (0 : Rat) * Y j) = 0 := sumRat_map_zero _ _ (fun j _ => by ring)
+  simp only [sirIndividual, h]
+  constructor <;> ring
+theorem tau0_sisIndividual (nbrs : Nat → List Nat) (rr : Nat → Rat) (Y : Nat → Rat) (i : Nat) :
+    sisIndividual nbrs (fun _ _ => 0) rr Y i = -rr i * Y i := by
+  have h : sumRat ((nbrs i).map fun j => (0 : Rat) * (1 - Y i) * Y j) = 0 :=
+    sumRat_map_zero _ _ (fun j _ => by ring)
+  simp only [sisIndividual, h]
+  ring
+/-- compact effective degree: with tau = 0 susceptibles only lose infected *neighbours*; their total is constant -/
+theorem tau0_sirCompactED_total (K : Nat) (gamma N : Rat) (Sk : Nat → Rat) (R SI : Rat) :
+    sumTo K (sirCompactED K 0 gamma N Sk R SI).1 = 0 := by
+  rcases Nat.eq_zero_or_pos K with rfl | hK
+  · exact sumTo_zero_left _
+  simp only [sirCompactED]
+  have h := sumTo_shift_trunc K (fun k => kf k * Sk k) hK
+  simp only [kf_zero, zero_mul, sub_zero] at h
+  have e : ∀ k, k < K →
+      SI / sumTo K (fun k => Sk k * kf k) *
+        (-(0 + gamma) * kf k * Sk k + gamma * (if k + 1 < K then kf (k + 1) * Sk (k + 1) else 0))
+      = (SI / sumTo K (fun k => Sk k * kf k) * gamma) * (if k + 1 < K then kf (k + 1) * Sk (k + 1) else 0)
+        + (-(SI / sumTo K (fun k => Sk k * kf k) * gamma)) * (kf k * Sk k) := fun k _ => by ring
+  rw [sumTo_congr K _ _ e, sumTo_add, sumTo_mul_left, sumTo_mul_left, h]; ring
+
+/-! ## C08: gamma = 0 — the SIS and SIR versions have the same susceptible dynamics -/
+theorem gamma0_homMF (nN tau S I : Rat) : (sisHomMF nN tau 0 S I).1 = (sirHomMF nN tau 0 S I).1 := by
+  simp only [sisHomMF, sirHomMF]; ring
+theorem gamma0_homPW (N n tau S I SI SS : Rat) :
+    (sisHomPW N n tau 0 S SI SS).1 = (sirHomPW n tau 0 S I SI SS).1 ∧
+    (sisHomPW N n tau 0 S SI SS).2.1 = (sirHomPW n tau 0 S I SI SS).2.2.1 ∧
+    (sisHomPW N n tau 0 S SI SS).2.2 = (sirHomPW n tau 0 S I SI SS).2.2.2 := by
+  simp only [sisHomPW, sirHomPW]
+  refine ⟨?_, ?_, ?_⟩ <;> ring
+theorem gamma0_compactPW (K : Nat) (tau twoM N : Rat) (Nk S : Nat → Rat) (SI SS R : Rat) (k : Nat) :
+    (sisCompactPW K tau 0 twoM Nk S SI SS).1 k = (sirCompactPW K tau 0 N S SS SI R).1 k ∧
+    (sisCompactPW K tau 0 twoM Nk S SI SS).2.1 = (sirCompactPW K tau 0 N S SS SI R).2.2.1 ∧
+    (sisCompactPW K tau 0 twoM Nk S SI SS).2.2 = (sirCompactPW K tau 0 N S SS SI R).2.1 := by
+  simp only [sisCompactPW, sirCompactPW]
+  refine ⟨?_, ?_, ?_⟩ <;> ring
+theorem gamma0_individual (nbrs : Nat → List Nat) (tr : Nat → Nat → Rat) (Y : Nat → Rat) (i : Nat) :
+    -(sisIndividual nbrs tr (fun _ => 0) Y i) = (sirIndividual nbrs tr (fun _ => 0) (fun j => 1 - Y j) Y).1 i := by
+  simp only [sisIndividual, sirIndividual]
+  have e : sumRat ((nbrs i).map fun j => tr i j * (1 - Y i) * Y j)
+      = (1 - Y i) * sumRat ((nbrs i).map fun j => tr i j * Y j) := by
+    rw [← sumRat_map_mul_left]
+    exact sumRat_map_congr _ _ _ (fun j _ => by ring)
+  rw [e]; ring
+/-- heterogeneous mean-field: with S_k = S0_k θ^k (and R ≡ 0) the SIR θ-dynamics induce on S_k exactly the SIS
+right-hand side: d/dt (S0_k θ^k) = S0_k k θ^(k-1) θ' -/
+theorem gamma0_hetMF (K : Nat) (tau : Rat) (S0 : Nat → Rat) (theta : Rat) (I : Nat → Rat) (k : Nat)
+    (hN : sumTo K (fun k => kf k * (I k + S0 k * theta ^ k)) ≠ 0) :
+    S0 k * (kf k * theta ^ (k - 1)) * (sirHetMF K tau 0 S0 (fun j => S0 j * theta ^ j + I j) theta (fun _ => 0)).1
+      = (sisHetMF K tau 0 (fun j => S0 j * theta ^ j) I).1 k := by
+  simp only [sirHetMF, sisHetMF, piI]
+  have e1 : sumTo K (fun k => kf k * (S0 k * theta ^ k + I k - S0 k * theta ^ k - 0))
+      = sumTo K (fun k => kf k * I k) := sumTo_congr _ _ _ (fun k _ => by ring)
+  have e2 : sumTo K (fun k => kf k * (S0 k * theta ^ k + I k))
+      = sumTo K (fun k => kf k * (I k + S0 k * theta ^ k)) := sumTo_congr _ _ _ (fun k _ => by ring)
+  rw [e1, e2]
+  have hp := kf_pow_pred k theta
+  generalize sumTo K (fun k => kf k * I k) / sumTo K (fun k => kf k * (I k + S0 k * theta ^ k)) = p
+  calc S0 k * (kf k * theta ^ (k - 1)) * (-tau * p * theta)
+      = -tau * p * S0 k * (kf k * theta ^ (k - 1) * theta) := by ring
+    _ = -tau * p * S0 k * (kf k * theta ^ k) := by rw [hp]
+    _ = 0 * I k - tau * kf k * (S0 k * theta ^ k) * p := by ring
+
+/-! ## C08: final sizes -/
+/-- ω is a fixed point of the iteration of `Attack_rate_cts_time` iff the θ-component of the EBCM right-hand side
+vanishes at θ = ω -/
+theorem attack_cts_fixed_point (K : Nat) (c : Nat → Rat) (N tau gamma phiS0 phiR0 omega R : Rat)
+    (h : gamma + tau ≠ 0) :
+    attackCtsMap K c tau gamma phiS0 phiR0 omega = omega ↔ (ebcm K c N tau gamma phiS0 phiR0 omega R).1 = 0 := by
+  simp only [attackCtsMap, ebcm]
+  have e : gamma / (gamma + tau) + tau * phiS0 * psiHP K c omega / (psiHP K c 1 * (gamma + tau))
+        + tau * phiR0 / (gamma + tau)
+      = (gamma + tau * phiS0 * psiHP K c omega / psiHP K c 1 + tau * phiR0) / (gamma + tau) := by
+    rw [← div_div]; ring
+  rw [e, div_eq_iff h]
+  constructor <;> intro H <;> linarith
+
+/-- `EBCM_discrete`: R(t+1) = R(t) + I(t), θ follows the iteration of `Attack_rate_discrete`, and S+I+R = N -/
+theorem ebcm_discrete_rec (K : Nat) (c : Nat → Rat) (N p phiS0 phiR0 theta I R : Rat) :
+    let r := ebcmDiscreteStep K c N p phiS0 phiR0 theta I R
+    r.2.2.2 = R + I ∧ r.1 = attackDiscMap K c p phiS0 phiR0 theta ∧ r.2.1 = N * psiH K c r.1 ∧
+    r.2.1 + r.2.2.1 + r.2.2.2 = N := by
+  simp only [ebcmDiscreteStep, attackDiscMap]
+  refine ⟨trivial, trivial, trivial, by ring⟩
+
+/-- at a fixed point of the discrete iteration no new infections occur: S stays put -/
+theorem ebcm_discrete_fixed (K : Nat) (c : Nat → Rat) (N p phiS0 phiR0 theta I R : Rat)
+    (hfix : attackDiscMap K c p phiS0 phiR0 theta = theta) :
+    (ebcmDiscreteStep K c N p phiS0 phiR0 theta I R).2.1 = N * psiH K c theta := by
+  simp only [attackDiscMap] at hfix
+  simp only [ebcmDiscreteStep, hfix]
+
+/-! ## non-vacuity: the right-hand sides evaluate to the expected numbers at concrete states -/
+example : sirHomMF 2 1 (1/2) 10 1 = (-20, 39/2) := by norm_num [sirHomMF]
+example : sisHomMF 2 1 (1/2) 10 1 = (-39/2, 39/2) := by norm_num [sisHomMF]
+example : (sirHomPW 4 1 (1/2) 10 1 3 20).2.2.1 = -27/40 := by norm_num [sirHomPW]
+example : (sirCompactPW 3 1 1 10 (fun k => (k : Rat) + 1) 4 2 1).1 2 = -3/2 := by
+  norm_num [sirCompactPW, sumTo, kf, List.range_succ]
+
+end ODE
